@@ -6,6 +6,7 @@ import Distill.Model.Words
 import Distill.Props.FiltersProps
 import Distill.Proofs.Render
 import Distill.Gen.Funcs
+import Distill.Gen.Tables
 namespace Distill.C09
 open Distill
 
@@ -62,13 +63,14 @@ theorem countFrom_append_space (i h : Bool) (a b : List Char) :
     countFrom i h (a ++ ' ' :: b) = countFrom i h a + countWords b := by
   induction a generalizing i h with
   | nil =>
-    have : isWS ' ' = true := by decide
-    simp [countFrom, countWords, this]
+    have : isReWS ' ' = true := by decide
+    simp [countFrom, countFromW, countWords, this]
   | cons c cs ih =>
-    simp only [List.cons_append, countFrom]
+    have ih' : ∀ i h, countFromW isWordChar i h (cs ++ ' ' :: b) = countFromW isWordChar i h cs + countWords b := ih
+    simp only [List.cons_append, countFrom, countFromW]
     split
-    · rw [ih]; omega
-    · rw [ih]
+    · rw [ih']; omega
+    · rw [ih']
 
 /-- **The counter is additive over space-separated pieces.** -/
 theorem wordcount_additive (a b : List Char) :
@@ -76,8 +78,8 @@ theorem wordcount_additive (a b : List Char) :
   countFrom_append_space false false a b
 
 theorem countWords_space_cons (a : List Char) : countWords (' ' :: a) = countWords a := by
-  have : isWS ' ' = true := by decide
-  simp [countWords, countFrom, this]
+  have : isReWS ' ' = true := by decide
+  simp [countWords, countFrom, countFromW, this]
 
 /-- `InnerText` pads every text node with spaces before concatenating, so the number of words
 of the text view is the sum of the nodes' word counts — which is how the builder computes
@@ -93,13 +95,49 @@ theorem innerText_count (pieces : List (List Char)) :
     rw [this, countWords_space_cons, wordcount_additive, ih]
 
 /-- whitespace-only and empty nodes count zero, so skipping them (as the builder does) is sound -/
-theorem blank_counts_zero (d : List Char) (h : d.all isWS = true) : countWords d = 0 := by
-  unfold countWords
+theorem blank_counts_zero (d : List Char) (h : d.all isReWS = true) : countWords d = 0 := by
+  unfold countWords countFrom
   induction d with
   | nil => rfl
   | cons c cs ih =>
     simp only [List.all_cons, Bool.and_eq_true] at h
-    simp [countFrom, h.1, ih h.2]
+    simp [countFromW, h.1, ih h.2]
+
+/-- the three counters, their selection and the five regular expressions `Model/Words.lean` spells
+out are the ones in the source -/
+theorem word_counters_tie :
+    Gen.wordCounterBodies = Gen.wordCounterBodiesExpected ∧
+    Gen.modelledRegexps.lookup "internal/stringutil.rxFullWordCounter" = some "[\\x{3040}-\\x{A4CF}]" ∧
+    Gen.modelledRegexps.lookup "internal/stringutil.rxLetterWordCounter" = some "[\\x{AC00}-\\x{D7AF}]" ∧
+    Gen.modelledRegexps.lookup "internal/stringutil.rxWordMatcher1" = some "(\\S*[\\w\\x{00C0}-\\x{1FFF}\\x{AC00}-\\x{D7AF}]\\S*)" ∧
+    Gen.modelledRegexps.lookup "internal/stringutil.rxWordMatcher2" = some "([\\x{3040}-\\x{A4CF}])" ∧
+    Gen.modelledRegexps.lookup "internal/stringutil.rxWordMatcher3" = some "(\\S*[\\w\\x{00C0}-\\x{1FFF}]\\S*)" := by
+  refine ⟨rfl, ?_, ?_, ?_, ?_, ?_⟩ <;> decide +kernel
+
+/-- a text without kana / ideographs and without Hangul is counted by the fast counter, on which
+the three counters agree anyway -/
+theorem counters_agree_without_cjk (s : List Char) (h1 : s.any isCJK = false) (h2 : s.any isHangul = false) :
+    selectCounter s = .fast ∧ countWordsLetter s = countWords s := by
+  refine ⟨by simp [selectCounter, h1, h2], ?_⟩
+  unfold countWordsLetter countWords countFrom
+  have hall : ∀ c ∈ s, isHangul c = false := by
+    intro c hc
+    cases hh : isHangul c
+    · rfl
+    · have : s.any isHangul = true := List.any_eq_true.mpr ⟨c, hc, hh⟩
+      rw [h2] at this; cases this
+  clear h1 h2
+  suffices h : ∀ (i w : Bool), countFromW (fun c => isWordChar c || isHangul c) i w s = countFromW isWordChar i w s from h false false
+  induction s with
+  | nil => intro i w; rfl
+  | cons c cs ih =>
+    intro i w
+    have hc := hall c (by simp)
+    have ih' := ih (fun x hx => hall x (by simp [hx]))
+    simp only [countFromW, hc, Bool.or_false]
+    split
+    · rw [ih']
+    · rw [ih']
 
 example : countWords "one , two . w3 x_y".toList = 4 := by decide
 
